@@ -9,6 +9,7 @@ f0_0:
   call f1_0
   call f1_0
   call f0_1
+  mov wvsv0@GOTPCREL(%rip),%rax
   ret
 .section .text.f0_1,"ax",@progbits
 .globl f0_1
